@@ -141,6 +141,15 @@ def eval_case(cases, name, inp):
                 fails.append((clause, str(detail)[:600]))
     except Exception as e:  # noqa
         tb = sys.exc_info()[2]
+        # PEP 479: a StopIteration escaping the library inside a generator case arrives as RuntimeError whose
+        # __cause__ carries the library frames
+        chain, x = [], e
+        while x is not None and len(chain) < 5:
+            chain.append(x)
+            x = x.__cause__ or x.__context__
+        src = next((c for c in chain if c.__traceback__ is not None and in_repo_frame(c.__traceback__)), None)
+        if src is not None:
+            e, tb = src, src.__traceback__
         if in_repo_frame(tb):
             last = traceback.extract_tb(tb)[-1]
             fails.append(('no-unexpected-exception',
